@@ -3,6 +3,10 @@
  A. ContextStateTransaction.write_entity takes DescriptorVersion (and descriptor_container) of a NEW context state from the
     caller's entity copy instead of the MDIB: fetch the entity, update the descriptor in a descriptor transaction, then write
     the (older) entity with a new state -> the new state carries a stale DescriptorVersion.
+ C. The same for an EXISTING context state: fetch the entity, update the descriptor (its states follow: DescriptorVersion + 1),
+    then modify a state of the older entity copy and write it -> the committed state goes back to the old DescriptorVersion
+    (the single-state write_entity refreshes it from the MDIB; found by the sibling cross-check C02.R7, first seen by a
+    seeding sub-agent of round 4).
  B. DescriptorTransaction: write a parent entity and add a child of it in the same transaction (parent first): the parent
     descriptor is incremented once more for the child, its state (already in the transaction) follows the transaction copy of
     the descriptor, not the MDIB object -> state one behind.
@@ -43,6 +47,26 @@ d = mdib.descriptions.handle.get_one(ch.handle)
 st = mdib.states.descriptor_handle.get_one(ch.handle)
 if st.DescriptorVersion != d.DescriptorVersion:
     bad.append(f'B: parent state has DescriptorVersion {st.DescriptorVersion}, its descriptor {d.DescriptorVersion}')
+# ---- C
+mdib = ProviderMdib.from_mdib_file(str(root / 'tests' / '70041_MDIB_Final.xml'))
+loc = mdib.entities.by_node_type(pm.LocationContextDescriptor)[0]
+first = loc.new_state(uuid.uuid4().hex)
+with mdib.context_state_transaction() as mgr:
+    mgr.write_entity(loc, [first.Handle])
+ent = mdib.entities.by_handle(loc.handle)           # caller's copy with the existing state
+with mdib.descriptor_transaction() as mgr:
+    fresh = mdib.entities.by_handle(loc.handle)
+    fresh.descriptor.SafetyClassification = mdib.data_model.pm_types.SafetyClassification.MED_A
+    mgr.write_entity(fresh)
+before = mdib.context_states.handle.get_one(first.Handle).DescriptorVersion
+ent.states[first.Handle].Validator.clear()
+with mdib.context_state_transaction() as mgr:
+    mgr.write_entity(ent, [first.Handle])
+d = mdib.descriptions.handle.get_one(loc.handle)
+st = mdib.context_states.handle.get_one(first.Handle)
+if st.DescriptorVersion != d.DescriptorVersion:
+    bad.append(f'C: existing context state written from an older entity copy: DescriptorVersion {before} -> '
+               f'{st.DescriptorVersion}, its descriptor has {d.DescriptorVersion}')
 for b in bad:
     print('REPRODUCED', b)
 print('FAIL' if bad else 'PASS')
